@@ -3,21 +3,37 @@
 
   Theorems about the PANOC loop model (`Alpaqa/Model/Panoc.lean`, tied to panoc.tpp by bit-exact
   trace replay and, for its decision kernels, by the translator).  They hold for *every* problem
-  oracle, direction provider, stop schedule (`stop : Nat → Bool`, any function of the number of
-  oracle calls made so far), time-limit oracle, iteration budget (0 included), both values of
-  `always_overwrite_results`, every exit status, and over *any* carrier (IEEE doubles included):
-  they are structural facts about which oracle answer ends up in which output.
-  The `ProblemContract` corollaries turn them into the property's statements.
+  oracle, direction provider, time-limit oracle, iteration budget (0 included), both values of
+  `always_overwrite_results`, every exit status: they are structural facts about which oracle answer
+  ends up in which output.  The `ProblemContract` corollaries turn them into the property's statements.
 
-  ZeroFPR / PANTR / FISTA / PANOC-OCP: same exit block, modelled loops pending — those solvers
-  are covered by the monitors of `checks/c03.py` only (stated in MANIFEST).
+  Two forms of each theorem:
+  * `…_of_fuel` — over *any* carrier (IEEE doubles included) and any stop schedule
+    (`stop : Nat → Bool`, any function of the number of oracle calls made so far), assuming that the
+    model's explicit loop fuel did not run out (`fuelOut = false`);
+  * the main form — over every linearly ordered field, with that assumption replaced by the explicit
+    hypotheses of `Proofs/PanocFuel.run_fuel_suffices`: a monotone stop flag (`StopMono`, what
+    `Gen/C19` establishes for the `std::atomic<bool>`) and `FuelOK pr n K`
+    (`L_max ≤ L_start·2ⁿ`, `ρᴷ < min_linesearch_coefficient`, `(n+1)(K+1) ≤ lsFuel`).
+
+  "x is finite" cannot be stated over a field (every element is finite).  What is proved is the
+  structural half, over any carrier: the written-back `x` is an `x̂` answered by the prox oracle, so it
+  is finite whenever the prox oracle returns finite vectors (`panoc_x_out_finite_of_fuel`, with
+  `vallFinite` of the carrier's `RealLike.isFinite`).  That the shipped prox step returns finite
+  vectors for finite inputs is an IEEE-level fact which is monitored (`checks/c03.py`), not proved.
+
+  ZeroFPR / PANTR / FISTA / PANOC-OCP: `Props/C03_<Solver>.lean`.
 -/
 import Alpaqa.Proofs.PanocInv
+import Alpaqa.Proofs.PanocFuel
+import Alpaqa.Proofs.PanocLoopExample
+import Alpaqa.Props.C15
 
 namespace Alpaqa.Props.C03
 open Alpaqa Alpaqa.Panoc Alpaqa.Gen
 set_option linter.unusedSectionVars false
 
+section generic
 variable {α D : Type} [Add α] [Sub α] [Mul α] [Div α] [Neg α] [LT α] [LE α] [DecidableLT α]
   [DecidableLE α] [BEq α] [RealLike α] [NatCast α] [OfScientific α]
   [OfNat α 0] [OfNat α 1] [OfNat α 2] [OfNat α 100]
@@ -26,7 +42,7 @@ variable {α D : Type} [Add α] [Sub α] [Mul α] [Div α] [Neg α] [LT α] [LE 
     `x_out` is the `x̂` of a proximal-gradient step (hence in `C` for any prox that maps into `C`),
     `y_out` is the ψ-oracle's `ŷ` *at that very `x_out`*, and `err_z = (y_out − y_in)/Σ`.
     Otherwise `x`, `y`, `err_z` are the caller's values, untouched. -/
-theorem panoc_exit_contract (P : Problem α) (dir : Direction D α) (d0 : D) (pr : Params α)
+theorem panoc_exit_contract_of_fuel (P : Problem α) (dir : Direction D α) (d0 : D) (pr : Params α)
     (stop : Nat → Bool) (oot : Bool) (x0 y Sig errz0 gV : Vec α) (gS iS : α)
     (hfuel : (run P dir d0 pr stop oot x0 y Sig errz0 gV gS iS).fuelOut = false) :
     ExitOK P x0 y Sig errz0 (run P dir d0 pr stop oot x0 y Sig errz0 gV gS iS) := by
@@ -46,18 +62,32 @@ theorem panoc_exit_contract (P : Problem α) (dir : Direction D α) (d0 : D) (pr
 
 /-- Feasibility: if the problem's prox step maps into `C` (proved for the shipped box / box+ℓ1 /
     unconstrained steps in `Props/C15`), the written-back `x` is in `C`. -/
-theorem panoc_x_out_feasible (InC : Vec α → Prop) (P : Problem α) (hP : ∀ γ x g, InC (P.prox γ x g).2.1)
+theorem panoc_x_out_feasible_of_fuel (InC : Vec α → Prop) (P : Problem α)
+    (hP : ∀ γ x g, InC (P.prox γ x g).2.1)
     (dir : Direction D α) (d0 : D) (pr : Params α)
     (stop : Nat → Bool) (oot : Bool) (x0 y Sig errz0 gV : Vec α) (gS iS : α)
     (hfuel : (run P dir d0 pr stop oot x0 y Sig errz0 gV gS iS).fuelOut = false)
     (hw : (run P dir d0 pr stop oot x0 y Sig errz0 gV gS iS).wrote = true) :
     InC (run P dir d0 pr stop oot x0 y Sig errz0 gV gS iS).x := by
-  obtain ⟨⟨γ, x, g, hx⟩, _, _⟩ := (panoc_exit_contract P dir d0 pr stop oot x0 y Sig errz0 gV gS iS hfuel).1 hw
+  obtain ⟨⟨γ, x, g, hx⟩, _, _⟩ :=
+    (panoc_exit_contract_of_fuel P dir d0 pr stop oot x0 y Sig errz0 gV gS iS hfuel).1 hw
   rw [hx]; exact hP γ x g
+
+/-- Finiteness, the structural half (any carrier, e.g. IEEE doubles): the written-back `x` is an `x̂`
+    answered by the prox oracle — finite whenever the oracle only returns finite vectors. -/
+theorem panoc_x_out_finite_of_fuel (P : Problem α)
+    (hP : ∀ γ x g, vallFinite (P.prox γ x g).2.1 = true)
+    (dir : Direction D α) (d0 : D) (pr : Params α)
+    (stop : Nat → Bool) (oot : Bool) (x0 y Sig errz0 gV : Vec α) (gS iS : α)
+    (hfuel : (run P dir d0 pr stop oot x0 y Sig errz0 gV gS iS).fuelOut = false)
+    (hw : (run P dir d0 pr stop oot x0 y Sig errz0 gV gS iS).wrote = true) :
+    vallFinite (run P dir d0 pr stop oot x0 y Sig errz0 gV gS iS).x = true :=
+  panoc_x_out_feasible_of_fuel (fun v => vallFinite v = true) P hP dir d0 pr stop oot x0 y Sig errz0
+    gV gS iS hfuel hw
 
 /-- Consistency: `y_out = ŷ(x_out)` and `err_z = (y_out − y_in)/Σ`, i.e. `y_out = y_in + Σ·err_z`
     componentwise whenever `Σ_i ≠ 0` (stated in the division form the code computes). -/
-theorem panoc_y_errz_consistent (P : Problem α) (dir : Direction D α) (d0 : D) (pr : Params α)
+theorem panoc_y_errz_consistent_of_fuel (P : Problem α) (dir : Direction D α) (d0 : D) (pr : Params α)
     (stop : Nat → Bool) (oot : Bool) (x0 y Sig errz0 gV : Vec α) (gS iS : α)
     (hfuel : (run P dir d0 pr stop oot x0 y Sig errz0 gV gS iS).fuelOut = false)
     (hw : (run P dir d0 pr stop oot x0 y Sig errz0 gV gS iS).wrote = true) :
@@ -65,20 +95,224 @@ theorem panoc_y_errz_consistent (P : Problem α) (dir : Direction D α) (d0 : D)
         = (P.psi (run P dir d0 pr stop oot x0 y Sig errz0 gV gS iS).x).2 ∧
     (errz0.length > 0 → (run P dir d0 pr stop oot x0 y Sig errz0 gV gS iS).errz
         = vdiv (vsub (run P dir d0 pr stop oot x0 y Sig errz0 gV gS iS).y y) Sig) := by
-  obtain ⟨_, hy, he⟩ := (panoc_exit_contract P dir d0 pr stop oot x0 y Sig errz0 gV gS iS hfuel).1 hw
+  obtain ⟨_, hy, he⟩ :=
+    (panoc_exit_contract_of_fuel P dir d0 pr stop oot x0 y Sig errz0 gV gS iS hfuel).1 hw
   exact ⟨hy, fun h => by rw [he, if_pos h]⟩
 
 /-- With `always_overwrite_results` disabled and an exit that is neither Converged nor
     Interrupted, `x`, `y` (and `err_z`) are left untouched. -/
-theorem panoc_untouched (P : Problem α) (dir : Direction D α) (d0 : D) (pr : Params α)
+theorem panoc_untouched_of_fuel (P : Problem α) (dir : Direction D α) (d0 : D) (pr : Params α)
     (stop : Nat → Bool) (oot : Bool) (x0 y Sig errz0 gV : Vec α) (gS iS : α)
     (hfuel : (run P dir d0 pr stop oot x0 y Sig errz0 gV gS iS).fuelOut = false)
     (hw : (run P dir d0 pr stop oot x0 y Sig errz0 gV gS iS).wrote = false) :
     (run P dir d0 pr stop oot x0 y Sig errz0 gV gS iS).x = x0 ∧
     (run P dir d0 pr stop oot x0 y Sig errz0 gV gS iS).y = y ∧
     (run P dir d0 pr stop oot x0 y Sig errz0 gV gS iS).errz = errz0 :=
-  (panoc_exit_contract P dir d0 pr stop oot x0 y Sig errz0 gV gS iS hfuel).2 hw
+  (panoc_exit_contract_of_fuel P dir d0 pr stop oot x0 y Sig errz0 gV gS iS hfuel).2 hw
 
-example : True := trivial
+theorem mainLoop_wrote (P : Problem α) (dir : Direction D α) (pr : Params α) (stop : Nat → Bool)
+    (oot : Bool) (x0 y Sig errz0 : Vec α) (fuel : Nat) (s : St α D)
+    (hr : (mainLoop P dir pr stop oot x0 y Sig errz0 fuel s).fuelOut = false) :
+    (mainLoop P dir pr stop oot x0 y Sig errz0 fuel s).wrote =
+      ((mainLoop P dir pr stop oot x0 y Sig errz0 fuel s).stats.status == .Converged ||
+       (mainLoop P dir pr stop oot x0 y Sig errz0 fuel s).stats.status == .Interrupted ||
+       pr.alwaysOverwrite) := by
+  induction fuel generalizing s with
+  | zero => simp [mainLoop] at hr
+  | succ f ih =>
+    unfold mainLoop at hr ⊢
+    simp only [] at hr ⊢
+    split_ifs at hr ⊢ with hb
+    · unfold exitBlock; simp only []
+    · exact ih _ hr
+
+/-- **When are the outputs overwritten?**  A solve that reached the main loop overwrites `x`, `y`,
+    `err_z` exactly when the returned status is `Converged` or `Interrupted`, or
+    `always_overwrite_results` is set; the early `NotFinite` return (non-finite initial Lipschitz
+    estimate) never writes — not even with `always_overwrite_results`. -/
+theorem panoc_wrote_iff_of_fuel (P : Problem α) (dir : Direction D α) (d0 : D) (pr : Params α)
+    (stop : Nat → Bool) (oot : Bool) (x0 y Sig errz0 gV : Vec α) (gS iS : α)
+    (hfuel : (run P dir d0 pr stop oot x0 y Sig errz0 gV gS iS).fuelOut = false) :
+    (run P dir d0 pr stop oot x0 y Sig errz0 gV gS iS).wrote =
+      ((initState P d0 pr stop x0 gV gS iS).isRight &&
+        ((run P dir d0 pr stop oot x0 y Sig errz0 gV gS iS).stats.status == .Converged ||
+         (run P dir d0 pr stop oot x0 y Sig errz0 gV gS iS).stats.status == .Interrupted ||
+         pr.alwaysOverwrite)) := by
+  unfold run at hfuel ⊢
+  cases hi : initState P d0 pr stop x0 gV gS iS with
+  | inl t => simp
+  | inr s =>
+    simp only [hi] at hfuel ⊢
+    rw [mainLoop_wrote P dir pr stop oot x0 y Sig errz0 _ s hfuel]
+    simp
+
+/-- In particular: `Converged` and `Interrupted` exits always write (the early return reports
+    `NotFinite`), and nothing is written unless the status is one of the two or
+    `always_overwrite_results` is set. -/
+theorem panoc_wrote_cases_of_fuel (P : Problem α) (dir : Direction D α) (d0 : D) (pr : Params α)
+    (stop : Nat → Bool) (oot : Bool) (x0 y Sig errz0 gV : Vec α) (gS iS : α)
+    (hfuel : (run P dir d0 pr stop oot x0 y Sig errz0 gV gS iS).fuelOut = false) :
+    (((run P dir d0 pr stop oot x0 y Sig errz0 gV gS iS).stats.status = .Converged ∨
+      (run P dir d0 pr stop oot x0 y Sig errz0 gV gS iS).stats.status = .Interrupted) →
+        (run P dir d0 pr stop oot x0 y Sig errz0 gV gS iS).wrote = true) ∧
+    ((run P dir d0 pr stop oot x0 y Sig errz0 gV gS iS).wrote = true →
+      (run P dir d0 pr stop oot x0 y Sig errz0 gV gS iS).stats.status = .Converged ∨
+      (run P dir d0 pr stop oot x0 y Sig errz0 gV gS iS).stats.status = .Interrupted ∨
+      pr.alwaysOverwrite = true) := by
+  have h := panoc_wrote_iff_of_fuel P dir d0 pr stop oot x0 y Sig errz0 gV gS iS hfuel
+  constructor
+  · intro hs
+    rw [h]
+    cases hi : initState P d0 pr stop x0 gV gS iS with
+    | inl t =>
+      exfalso
+      have : (run P dir d0 pr stop oot x0 y Sig errz0 gV gS iS).stats.status = .NotFinite := by
+        unfold run; rw [hi]
+      rw [this] at hs
+      rcases hs with hs | hs <;> cases hs
+    | inr s =>
+      rcases hs with hs | hs <;> simp [hs]
+  · intro hw
+    rw [h] at hw
+    simp only [Bool.and_eq_true, Bool.or_eq_true, beq_iff_eq] at hw
+    rcases hw.2 with (h1 | h1) | h1
+    · exact Or.inl h1
+    · exact Or.inr (Or.inl h1)
+    · exact Or.inr (Or.inr h1)
+
+end generic
+
+/-! ### The property theorems with the fuel hypothesis discharged -/
+
+section fuel
+variable {α D : Type} [Field α] [LinearOrder α] [IsStrictOrderedRing α] [RealLike α]
+
+/-- **Exit contract of `PANOCSolver::operator()`** (see `panoc_exit_contract_of_fuel`), for every
+    monotone stop flag and parameters satisfying `FuelOK`. -/
+theorem panoc_exit_contract (P : Problem α) (dir : Direction D α) (d0 : D) (pr : Params α)
+    (stop : Nat → Bool) (hm : StopMono stop) (n K : Nat) (hF : FuelOK pr n K) (oot : Bool)
+    (x0 y Sig errz0 gV : Vec α) (gS iS : α) :
+    ExitOK P x0 y Sig errz0 (run P dir d0 pr stop oot x0 y Sig errz0 gV gS iS) :=
+  panoc_exit_contract_of_fuel P dir d0 pr stop oot x0 y Sig errz0 gV gS iS
+    (run_fuel_suffices P dir d0 pr stop hm n K hF oot x0 y Sig errz0 gV gS iS)
+
+theorem panoc_x_out_feasible (InC : Vec α → Prop) (P : Problem α)
+    (hP : ∀ γ x g, InC (P.prox γ x g).2.1) (dir : Direction D α) (d0 : D) (pr : Params α)
+    (stop : Nat → Bool) (hm : StopMono stop) (n K : Nat) (hF : FuelOK pr n K) (oot : Bool)
+    (x0 y Sig errz0 gV : Vec α) (gS iS : α)
+    (hw : (run P dir d0 pr stop oot x0 y Sig errz0 gV gS iS).wrote = true) :
+    InC (run P dir d0 pr stop oot x0 y Sig errz0 gV gS iS).x :=
+  panoc_x_out_feasible_of_fuel InC P hP dir d0 pr stop oot x0 y Sig errz0 gV gS iS
+    (run_fuel_suffices P dir d0 pr stop hm n K hF oot x0 y Sig errz0 gV gS iS) hw
+
+theorem panoc_y_errz_consistent (P : Problem α) (dir : Direction D α) (d0 : D) (pr : Params α)
+    (stop : Nat → Bool) (hm : StopMono stop) (n K : Nat) (hF : FuelOK pr n K) (oot : Bool)
+    (x0 y Sig errz0 gV : Vec α) (gS iS : α)
+    (hw : (run P dir d0 pr stop oot x0 y Sig errz0 gV gS iS).wrote = true) :
+    (run P dir d0 pr stop oot x0 y Sig errz0 gV gS iS).y
+        = (P.psi (run P dir d0 pr stop oot x0 y Sig errz0 gV gS iS).x).2 ∧
+    (errz0.length > 0 → (run P dir d0 pr stop oot x0 y Sig errz0 gV gS iS).errz
+        = vdiv (vsub (run P dir d0 pr stop oot x0 y Sig errz0 gV gS iS).y y) Sig) :=
+  panoc_y_errz_consistent_of_fuel P dir d0 pr stop oot x0 y Sig errz0 gV gS iS
+    (run_fuel_suffices P dir d0 pr stop hm n K hF oot x0 y Sig errz0 gV gS iS) hw
+
+theorem panoc_untouched (P : Problem α) (dir : Direction D α) (d0 : D) (pr : Params α)
+    (stop : Nat → Bool) (hm : StopMono stop) (n K : Nat) (hF : FuelOK pr n K) (oot : Bool)
+    (x0 y Sig errz0 gV : Vec α) (gS iS : α)
+    (hw : (run P dir d0 pr stop oot x0 y Sig errz0 gV gS iS).wrote = false) :
+    (run P dir d0 pr stop oot x0 y Sig errz0 gV gS iS).x = x0 ∧
+    (run P dir d0 pr stop oot x0 y Sig errz0 gV gS iS).y = y ∧
+    (run P dir d0 pr stop oot x0 y Sig errz0 gV gS iS).errz = errz0 :=
+  panoc_untouched_of_fuel P dir d0 pr stop oot x0 y Sig errz0 gV gS iS
+    (run_fuel_suffices P dir d0 pr stop hm n K hF oot x0 y Sig errz0 gV gS iS) hw
+
+/-- **`wrote ⇔ status`**: see `panoc_wrote_iff_of_fuel`. -/
+theorem panoc_wrote_iff (P : Problem α) (dir : Direction D α) (d0 : D) (pr : Params α)
+    (stop : Nat → Bool) (hm : StopMono stop) (n K : Nat) (hF : FuelOK pr n K) (oot : Bool)
+    (x0 y Sig errz0 gV : Vec α) (gS iS : α) :
+    (run P dir d0 pr stop oot x0 y Sig errz0 gV gS iS).wrote =
+      ((initState P d0 pr stop x0 gV gS iS).isRight &&
+        ((run P dir d0 pr stop oot x0 y Sig errz0 gV gS iS).stats.status == .Converged ||
+         (run P dir d0 pr stop oot x0 y Sig errz0 gV gS iS).stats.status == .Interrupted ||
+         pr.alwaysOverwrite)) :=
+  panoc_wrote_iff_of_fuel P dir d0 pr stop oot x0 y Sig errz0 gV gS iS
+    (run_fuel_suffices P dir d0 pr stop hm n K hF oot x0 y Sig errz0 gV gS iS)
+
+/-- **The property's "untouched" clause in terms of the status**: with `always_overwrite_results`
+    disabled and a returned status that is neither `Converged` nor `Interrupted`, `x`, `y`, `err_z`
+    are the caller's values. -/
+theorem panoc_untouched_of_status (P : Problem α) (dir : Direction D α) (d0 : D) (pr : Params α)
+    (stop : Nat → Bool) (hm : StopMono stop) (n K : Nat) (hF : FuelOK pr n K) (oot : Bool)
+    (x0 y Sig errz0 gV : Vec α) (gS iS : α) (hao : pr.alwaysOverwrite = false)
+    (h1 : (run P dir d0 pr stop oot x0 y Sig errz0 gV gS iS).stats.status ≠ .Converged)
+    (h2 : (run P dir d0 pr stop oot x0 y Sig errz0 gV gS iS).stats.status ≠ .Interrupted) :
+    (run P dir d0 pr stop oot x0 y Sig errz0 gV gS iS).x = x0 ∧
+    (run P dir d0 pr stop oot x0 y Sig errz0 gV gS iS).y = y ∧
+    (run P dir d0 pr stop oot x0 y Sig errz0 gV gS iS).errz = errz0 := by
+  apply panoc_untouched P dir d0 pr stop hm n K hF oot x0 y Sig errz0 gV gS iS
+  rw [panoc_wrote_iff P dir d0 pr stop hm n K hF oot x0 y Sig errz0 gV gS iS, hao]
+  simp [h1, h2]
+
+end fuel
+
+/-! ### Non-vacuity: concrete runs with `n = 1`, `m = 1` (`Pm` of `Proofs/PanocLoopExample`) -/
+
+section examples
+open Alpaqa.Panoc.Example
+
+theorem stopAt_mono (t0 : Option Nat) : StopMono (stopAt t0) := by
+  intro s t h hs
+  cases t0 with
+  | none => simp [stopAt] at hs
+  | some t0 => simp only [stopAt, decide_eq_true_eq] at *; omega
+
+theorem fuelOK_prq : FuelOK prq 1 9 := by
+  refine ⟨?_, ?_, ?_, ?_, ?_, by norm_num, ?_, ?_⟩ <;> norm_num [prq, Lstart]
+
+/-- a run that overwrites with status `Converged`: from `x = [1]`, `y = [0]`, `err_z = [7]` to
+    `x̂ = [1199/800] ∈ [0, 3]`, `ŷ = [399/800] = ŷ(x̂)`, `err_z = (ŷ − y)/Σ = [399/800]` -/
+example : (rm prq none).stats.status = .Converged ∧ (rm prq none).wrote = true ∧
+    (rm prq none).x = [1199/800] ∧ (rm prq none).y = [399/800] ∧ (rm prq none).errz = [399/800] ∧
+    (Pm.psi (rm prq none).x).2 = (rm prq none).y := by decide +kernel
+
+/-- one that overwrites with status `Interrupted` (flag visible from tick 7) -/
+example : (rm prq (some 7)).stats.status = .Interrupted ∧ (rm prq (some 7)).wrote = true ∧
+    (rm prq (some 7)).x = [59/40] ∧ (rm prq (some 7)).y = [19/40] ∧
+    (rm prq (some 7)).errz = [19/40] := by decide +kernel
+
+/-- one that does not write: `max_iter = 0`, `always_overwrite_results = false` — status `MaxIter`,
+    `x`, `y`, `err_z` bit-for-bit the caller's -/
+example : (rm { prq with maxIter := 0, alwaysOverwrite := false } none).stats.status = .MaxIter ∧
+    (rm { prq with maxIter := 0, alwaysOverwrite := false } none).wrote = false ∧
+    (rm { prq with maxIter := 0, alwaysOverwrite := false } none).x = [1] ∧
+    (rm { prq with maxIter := 0, alwaysOverwrite := false } none).y = [0] ∧
+    (rm { prq with maxIter := 0, alwaysOverwrite := false } none).errz = [7] := by decide +kernel
+
+/-- `panoc_exit_contract` on the converged run, every hypothesis discharged -/
+example : ExitOK Pm [1] [0] [1] [7] (rm prq none) :=
+  panoc_exit_contract Pm dirNoop () prq (stopAt none) (stopAt_mono none) 1 9 fuelOK_prq false
+    [1] [0] [1] [7] [] 0 0
+
+/-- `panoc_x_out_feasible` with the prox contract discharged by `Props/C15.ProxMapsIntoBox`:
+    the written-back `x` of the interrupted run is in `C = [0, 3]` -/
+example : Alpaqa.Props.C15.InBox [0] [3] (rm prq (some 7)).x :=
+  panoc_x_out_feasible (Alpaqa.Props.C15.InBox [0] [3]) Pm
+    (Alpaqa.Props.C15.ProxMapsIntoBox [] [0] [3] (by
+      intro i; cases i with
+      | zero => norm_num [vget]
+      | succ j => simp [vget]))
+    dirNoop () prq (stopAt (some 7)) (stopAt_mono (some 7)) 1 9 fuelOK_prq false
+    [1] [0] [1] [7] [] 0 0 (by decide +kernel)
+
+/-- `panoc_untouched_of_status` on the run that does not write -/
+example : (rm { prq with maxIter := 0, alwaysOverwrite := false } none).x = [1] ∧
+    (rm { prq with maxIter := 0, alwaysOverwrite := false } none).y = [0] ∧
+    (rm { prq with maxIter := 0, alwaysOverwrite := false } none).errz = [7] :=
+  panoc_untouched_of_status Pm dirNoop () { prq with maxIter := 0, alwaysOverwrite := false }
+    (stopAt none) (stopAt_mono none) 1 9
+    (by refine ⟨?_, ?_, ?_, ?_, ?_, by norm_num, ?_, ?_⟩ <;> norm_num [prq, Lstart])
+    false [1] [0] [1] [7] [] 0 0 rfl (by decide +kernel) (by decide +kernel)
+
+end examples
 
 end Alpaqa.Props.C03
